@@ -199,6 +199,51 @@ def _concrete_replay(cfg, values, label):
     return bad[0] if bad else None
 
 
+class _TwiceBlock(py4hw.Logic):
+    """user-written behavioural block in the 'default assignment first, override later' style: the same wire is written twice in
+    one evaluation (the library tolerates a second prepare with a warning, the last value wins), with raw results of any sign and size"""
+
+    def __init__(self, parent, name, a, b, q, r, mode):
+        super().__init__(parent, name)
+        self.a = self.addIn('a', a)
+        self.b = self.addIn('b', b)
+        self.q = self.addOut('q', q)
+        self.r = self.addOut('r', r)
+        self.mode = mode
+
+    def clock(self):
+        a, b = self.a.get(), self.b.get()
+        if self.mode == 0:
+            self.q.prepare(a)
+            self.q.prepare(a - b)            # negative
+            self.r.prepare(0)
+            self.r.prepare(a * b * 37)       # oversized
+        elif self.mode == 1:
+            self.q.prepare(a - b)
+            self.q.prepare(~a)
+            self.r.prepare(a << 9)
+            self.r.prepare(b)
+        else:
+            self.q.prepare(a)
+            if b > a:
+                self.q.prepare(a - b)
+            self.r.prepare(-1)
+            self.r.prepare(-b)
+            self.r.prepare((a + 1) << 7)
+
+
+class _TwicePut(py4hw.Logic):
+    def __init__(self, parent, name, a, b, r):
+        super().__init__(parent, name)
+        self.a = self.addIn('a', a)
+        self.b = self.addIn('b', b)
+        self.r = self.addOut('r', r)
+
+    def propagate(self):
+        self.r.put(0)
+        self.r.put(self.a.get() - self.b.get() * 3)
+
+
 def extra_cfgs(tier):
     """constants, stimulus and reset values that are negative or oversized (symbolic where the
     constructor only stores the value)"""
@@ -313,6 +358,18 @@ def extra_cfgs(tier):
             return {'rv': v}
         return {'kind': 'seq', 'build': build, 'symbolize': symbolize}
 
+    def twice_cfg(w, qw, mode):
+        def build(s):
+            a, b = s.wire('a', w), s.wire('b', w)
+            q, r, c = s.wire('q', qw), s.wire('r', qw), s.wire('c', qw)
+            _TwiceBlock(s, 'blk', a, b, q, r, mode)
+            _TwicePut(s, 'cmb', q, r, c)
+            return {'ins': {'a': a, 'b': b}}
+        return {'kind': 'seq', 'build': build}
+
+    for w, qw in (((4, 4), (8, 3)) if quick else ((4, 4), (8, 3), (1, 1), (3, 8), (16, 16))):
+        for mode in (0, 1, 2):
+            yield 'user block writing one wire several times per evaluation (mode %d) w%d q%d' % (mode, w, qw), twice_cfg(w, qw, mode)
     for dual in (False, True):
         for wdw, rdw in (((8, 4), (3, 3)) if quick else ((8, 4), (3, 3), (4, 8), (2, 1), (16, 8))):
             yield '%sSynchronousMemory written word %d bits, read port %d bits' % ('DualPort' if dual else '', wdw, rdw), mem_cfg(dual, wdw, rdw)
